@@ -309,6 +309,27 @@ fn rng_oracle(c: &RngCase) -> Result<(), Failure> {
         })
         .map_err(|e| Failure::new("C08 optimize_with fails", format!("{e:#}")))?;
     ensure_that!(sols(&st) == sols(&st3), "C08 same generator and seed give different runs", "seed {seed}");
+    // the user supplies the generator with insert-if-absent semantics (a set-up function shared between single runs and
+    // the batch runner, which has already inserted one): the state handed to the set-up holds no generator yet, so the
+    // user's is used
+    for how in 0..2 {
+        let st4 = cfg
+            .optimize_with(&problem, |s| {
+                if how == 0 {
+                    s.entry::<Random>().or_insert_with(|| Random::with_rng::<rand_chacha::ChaCha8Rng>(seed));
+                } else if !s.contains::<Random>() {
+                    s.insert(Random::with_rng::<rand_chacha::ChaCha8Rng>(seed));
+                }
+                s.insert_evaluator(Sequential::<RealP>::new());
+                Ok(())
+            })
+            .map_err(|e| Failure::new("C08 optimize_with fails", format!("{e:#}")))?;
+        {
+            let r = st4.borrow::<Random>();
+            ensure_that!(r.config().seed == seed && r.config().name.contains("ChaCha8Rng"), "C08 optimize_with replaces the user's generator", "generator supplied with insert-if-absent semantics (variant {how}): ChaCha8Rng seed {seed}, found {:?}", r.config());
+        }
+        ensure_that!(sols(&st) == sols(&st4), "C08 same generator and seed give different runs", "seed {seed}, generator supplied with insert-if-absent semantics");
+    }
     Ok(())
 }
 
